@@ -37,6 +37,15 @@ PARAMS = {
                'eff(&format!("n={} s={} flag={}", n, s, flag));', has_n=True, noref=False),
     "owned": P("s: String, x: i64, f: f64", "", 'String::from("own"), -3, 1.5', [("s", "str", "own"), ("x", "i64", "-3"), ("f", "f64", "1.5")],
                'eff(&format!("s={} x={} f={}", s, x, f));', 'drop(s); eff("consumed s");'),
+    "ints": P("a8: i8, b8: u8, c128: i128, d128: u128, e16: i16, nz: std::num::NonZeroU8", "", "-5, 200, i128::MIN, u128::MAX, -300, std::num::NonZeroU8::new(7).unwrap()",
+              [("a8", "i64", "-5"), ("b8", "u64", "200"), ("c128", "i128", "-170141183460469231731687303715884105728"), ("d128", "u128", "340282366920938463463374607431768211455"), ("e16", "i64", "-300"), ("nz", "u64", "7")],
+              'eff(&format!("a8={} b8={}", a8, b8));'),
+    "ints2": P("u: usize, i: isize, h: u16, w: u64, x: f32, wr: std::num::Wrapping<u8>, r8: &i8", "", "9, -9, 65535, u64::MAX, 1.5, std::num::Wrapping(3), &-7",
+               [("u", "u64", "9"), ("i", "i64", "-9"), ("h", "u64", "65535"), ("w", "u64", "18446744073709551615"), ("x", "f64", "1.5"), ("wr", "u64", "3"), ("r8", "i64", "-7")],
+               'eff(&format!("u={} i={}", u, i));', noref=False),
+    "ints3": P('p: i32, n1: std::num::NonZeroI8, n2: std::num::NonZeroU16, n3: std::num::NonZeroI16, n4: std::num::NonZeroU32, n5: std::num::NonZeroI32, n6: std::num::NonZeroU64, n7: std::num::NonZeroI64, n8: std::num::NonZeroU128, n9: std::num::NonZeroI128, n10: std::num::NonZeroUsize, n11: std::num::NonZeroIsize', "", '-32, std::num::NonZeroI8::new(-1).unwrap(), std::num::NonZeroU16::new(2).unwrap(), std::num::NonZeroI16::new(-3).unwrap(), std::num::NonZeroU32::new(4).unwrap(), std::num::NonZeroI32::new(-5).unwrap(), std::num::NonZeroU64::new(6).unwrap(), std::num::NonZeroI64::new(-7).unwrap(), std::num::NonZeroU128::new(8).unwrap(), std::num::NonZeroI128::new(-9).unwrap(), std::num::NonZeroUsize::new(10).unwrap(), std::num::NonZeroIsize::new(-11).unwrap()',
+               [('p', 'i64', '-32'), ('n1', 'i64', '-1'), ('n2', 'u64', '2'), ('n3', 'i64', '-3'), ('n4', 'u64', '4'), ('n5', 'i64', '-5'), ('n6', 'u64', '6'), ('n7', 'i64', '-7'), ('n8', 'u128', '8'), ('n9', 'i128', '-9'), ('n10', 'u64', '10'), ('n11', 'i64', '-11')],
+               'eff(&format!("p={}", p));'),
     "two": P("a: Tok, n: u32", "let t1 = Tok::new(1);", "t1, 5", [("a", "debug", "Tok(1.0)"), ("n", "u64", "5")], SEE_A,
              'drop(a); eff("consumed a");', has_a_val=True, has_n=True),
     "self_val": P("self, n: u32", "let recv = Recv { t: Tok::new(7) };", "5", [("self", "debug", "Recv { t: Tok(7.0) }"), ("n", "u64", "5")],
@@ -265,8 +274,11 @@ def build_case(cid, kind, pset, shape, feats, usage, awaits, decor=0):
 
 
 def _argnames(pset):
+    if pset not in ("none", "tok", "mut_tok", "tuple", "struct", "tstruct", "generic", "owned", "two", "ints"):
+        # plain `name: type` parameter lists
+        return [x.split(":")[0].strip() for x in PARAMS[pset]["params"].split(", ") if ":" in x]
     return {"none": [], "tok": ["a"], "mut_tok": ["a"], "tuple": ["(a, b)"], "struct": ["Pair { x, y }"], "tstruct": ["Wrap(a)"],
-            "generic": ["a"], "owned": ["s", "x", "f"], "two": ["a", "n"]}[pset]
+            "generic": ["a"], "owned": ["s", "x", "f"], "two": ["a", "n"], "ints": ["a8", "b8", "c128", "d128", "e16", "nz"]}[pset]
 
 
 def plan(big):
